@@ -510,6 +510,8 @@ func c01Trusts() []struct {
 		{"meta-ecdsa-signing", func(c *Cfg) { c.Trust, c.Kds = tMeta, []KD{{"signing", []int{3}}} }},
 		{"meta-rsa+ecdsa-signing", func(c *Cfg) { c.Trust, c.Kds = tMeta, []KD{{"signing", []int{0}}, {"signing", []int{3}}} }},
 		{"pinned-ecdsa", func(c *Cfg) { c.Trust, c.C = tPinned, 3 }},
+		{"meta-other-roles-publish-keys", func(c *Cfg) { c.Trust, c.Kds, c.OtherRoleCerts = tMeta, []KD{{"signing", []int{0}}}, []int{1, 2, 9} }},
+		{"meta-only-other-roles-publish-keys", func(c *Cfg) { c.Trust, c.Kds, c.OtherRoleCerts = tMeta, []KD{{"encryption", []int{2}}}, []int{1, 0, 9} }},
 		{"pinned", func(c *Cfg) { c.Trust, c.C = tPinned, 0 }},
 		{"pinned-other", func(c *Cfg) { c.Trust, c.C = tPinned, 1 }},
 		{"pinned-garbage", func(c *Cfg) { c.Trust, c.C = tPinned, -1 }},
